@@ -4,9 +4,14 @@ A: TLC checks the generator of tla/PeerInput.tla (every handler-table state is r
    shape of every registered stanza occurs in every such state, in both configurations of the
    handler table - every optional callback set / default zero-value handlers -, alone and twice
    in a row followed by the helper call of its handler; the local state "bytestream with
-   unflushed bytes" is reached for both carriers) and the run protocol (C09_Terminates under
-   the fairness the property demands of the library, whatever the configuration and the local
-   state of the extension).
+   unflushed bytes" is reached for both carriers; the IDENTITY of the served session - how it
+   was made (initiated / received, client / server namespace, WebSocket framing) x the class of
+   its local address (full, bare, domain, EMPTY: no origin given, none named by the peer) - is
+   crossed with the addressing of the stanzas (from / to absent, empty, the session's own bare /
+   full / domain address, another entity, junk)) and the run protocol (C09_Terminates under
+   the fairness the property demands of the library, whatever the configuration, the local
+   state of the extension and the life of the session: served once, closed by the application
+   before Serve, Serve called again after it returned, never served).
 B: TLC emits the shaped stanzas, the sequences (stanzas + application actions) and the
    request-helper x reply-shape scenarios; the driver adds a seeded sample of truncations.
 C: every scenario runs against a really served session whose mux carries all the library's
@@ -24,6 +29,7 @@ def run(ctx):
     if ctx.replay:
         return replay(ctx)
     mc = pc.design_check(ctx)
+    ctx.log("non-vacuity: %d code-like deviations of the run protocol (%s) each violate C09_Terminates" % (mc.nonvacuity, ", ".join(pc.DEVS)))
     em = pc.emit(ctx)
     ctx.log("TLC emitted %s (stanzas, sequences, reply scenarios)" % em["counts"])
     binpath, instrumented = pc.build_cover(ctx)
@@ -86,23 +92,46 @@ def run(ctx):
                         emitted_reply_scenarios=em["counts"][2], truncated_scenarios=summ["scenarios"] - sum(em["counts"][1:3]) - nrand, random_sequences=nrand),
         "outcomes": summ["outcomes"], "worker_crashes": summ["worker_crashes"], "stalls_confirmed": summ["stalls"],
         "stalls_not_rerun": summ["stalls_not_rerun"], "unreproduced_stalls": len(summ["unreproduced_stalls"]),
-        "binding_selftest_corruptions_rejected": nself,
+        "binding_selftest_corruptions_rejected": nself, "nonvacuity_runs_violating": mc.nonvacuity,
+        "nonvacuity_deviations": pc.DEVS,
         "unchecked_token_assertions": scan, "coverage_instrumented": bool(cov is not None),
         "exhaustive": ("every shape of every stanza of every registered (handler, kind, type, payload) alone and after every setup "
                        "of <= %s steps that reaches a table state of its handler (IBB: incl. a bytestream with written, unflushed bytes "
                        "below the block size, iq and message carrier), each in both handler configurations (every optional callback set / "
                        "default zero-value handlers); every stanza twice in a row followed by the helper call of its handler (empty table: "
-                       "all handlers; every table state: %s); every helper x every reply shape" % (
+                       "all handlers; every table state: %s); every helper x every reply shape; every session identity (kind x class of "
+                       "the local address, incl. NO local address for every kind) x the addressing shapes of the stanzas; every "
+                       "registered stanza and every stream-level input on a session closed before Serve / served a second time; every "
+                       "helper on a session nobody serves" % (
                            "2-3" if quick else "3-4", "receipts, ibb" if quick else "all stateful handlers")),
         "handler_configurations": ["listen (all optional callbacks, IBB listener)", "zero (default handlers, IBB listener)", "nolisten"],
+        "session_identities": {
+            "kinds": ["c2s (xmpp.NewSession, own Negotiator)", "s2s (S2S bit, server namespace)", "rc2s / rs2s (xmpp.ReceiveSession)",
+                      "ws (websocket.NewSession / websocket.Negotiator, WebSocket framing)"],
+            "local_address_classes": ["full", "bare", "domain", "empty (zero origin, peer's stream header without 'to')"],
+            "lives": ["fresh (served once)", "closed (Close before Serve)", "again (Serve called a second time after it returned)",
+                      "unserved (helper called, then Close and cancel; Serve never called)"],
+            "stanza_addressing": "from / to each absent, empty, the session's own bare / full / domain address, another entity, junk; "
+                                 "every target x every from shape and every to shape on the sessions made the client's way, "
+                                 "every from shape x every to shape for ping / unregistered iq / message / presence on every session; "
+                                 "replies to the core helpers with every from shape on every session",
+            "binding": "the driver logs the local address of the constructed session; the trace specification requires it to be the one the scenario means",
+        },
         "local_states": ["clean", "buffered (bytes written to an accepted bytestream, below the block size, not flushed)"],
-        "rule": "one scenario = one real served session (full mux) fed a TLC-emitted sequence of shaped stanzas and application "
+        "rule": "one scenario = one real session (full mux) of the identity the scenario names (kind of construction x class of the "
+                "local address: full / bare / domain / empty), served as its life says (once / after a local Close / a second time / "
+                "never), fed a TLC-emitted sequence of shaped stanzas (payload shapes, stanza attributes, from / to addressing "
+                "relative to the session's own address) and application "
                 "actions, or one helper call answered by TLC-emitted shaped replies; plus seeded random sequences of 4 stanzas of any "
-                "handlers and a seeded sample of scenarios whose last stanza is cut at every token boundary and at 3 random "
+                "handlers on a session of any identity and a seeded sample of scenarios whose last stanza is cut at every token boundary and at 3 random "
                 "offsets; outcome classes per event",
         "samples": summ["samples"][:3],
     }, assumptions=[
         "handler tables are independent: a setup of handler H is followed by probes addressed to H only (plus every stanza alone)",
+        "the identity of the session is crossed with the addressing of the expected payload of each target (not with every payload shape) "
+        "and with the handler configuration 'listen' (the session without an address made the client's way: both configurations); table "
+        "states and payload shapes run on the usual session (initiated client session with a full address); random sequences pick any identity",
+        "server-side session kinds (s2s, received) carry a domain address or none; WebSocket sessions a full, a bare or no address",
         "the application side is the documented use of each handler/helper (iterate, read, close; contexts cancelled when the session is gone)",
         "configuration 'zero' leaves unset the callbacks the library treats as optional (receipts Unhandled, muc client / direct invitation "
         "callbacks, blocklist callbacks, bin Get, xtime TimeFunc, history's inner handler); roster Push, carbons F and the function of "
